@@ -499,6 +499,30 @@ fn run(ctx: &mut Ctx) {
             });
             let sub = format!("pairs/p{}", pi);
             ctx.run_prop(&sub, per_pair * qs.len() as u32, strat, |(qi, v)| check_case(pi, *qi, v));
+            // hundreds of the same small thing in one value (what costs a little
+            // per item shows only in numbers), then generated wide values
+            {
+                let q0 = qs[0];
+                let units = [MV::Vec(vec![]), MV::Null, MV::Str(String::new()), MV::Bytes(vec![]), MV::Nil, MV::Bool(false), MV::list(vec![MV::sym("quote"), MV::sym("x")]), MV::Vec(vec![MV::Vec(vec![])]), MV::Char('(' as u32), MV::Kw("k".into())];
+                for u in units {
+                    for (k, as_vec) in [(130usize, false), (300, true)] {
+                        let items: Vec<MV> = std::iter::repeat(u.clone()).take(k).collect();
+                        let v = if as_vec { MV::Vec(items) } else { MV::list(items) };
+                        if in_domain(&p, &q0, &v) {
+                            ctx.observe("repeated-units", check_case(pi, q0.index(), &v));
+                        }
+                    }
+                }
+                ctx.flush_failures();
+                let cfgw = ValueCfg { ident: ident_rules(&p, &q0), bytes: bytes_allowed(&p), keywords: true, depth: 3, nodes: 12, branch: 3, str_max: 6 };
+                ctx.run_prop(&format!("wide/p{}", pi), tier.pick(2, 12), g_wide(cfgw, 400), |v| {
+                    if in_domain(&p, &q0, v) {
+                        check_case(pi, q0.index(), v)
+                    } else {
+                        Ok(Eval::new(false, 0).class("wide:outside-the-pair's-domain"))
+                    }
+                });
+            }
             // atoms at the buffer-size thresholds (256 B .. 8 KiB): long strings, names and byte vectors
             {
                 let q0 = qs[0];
